@@ -25,8 +25,9 @@ RULE = (
     "one sub-check per module of aurel.solutions. Hypothesis draws a "
     "coordinate time (log-uniform over 2.5-3.5 decades inside the module's "
     "domain; cosmological modules: 1 .. 3 t_today), 1-3 positions (x, y, z) "
-    "(Schwarzschild: isotropic radius 0.05M..50M on both sides of the "
-    "horizon r=M/2 and a direction; Non_diagonal: t*A(z) > sqrt(2)) and the "
+    "(Schwarzschild: isotropic radius 0.05M..0.45M or 0.55M..50M, i.e. both "
+    "sides of the horizon r=M/2 where the 4-metric is degenerate, and a "
+    "direction; Non_diagonal: t*A(z) > sqrt(2)) and the "
     "module parameter where the module reads one at call time "
     "(Schwarzschild M, Conformally_flat eps, Szekeres Amp). ICPertFLRW: "
     "background (EdS/LCDM), t, a periodic non-cubic grid (N 24/32, dyadic "
@@ -895,9 +896,16 @@ def module_case(draw, name):
     pts = []
     for _ in range(npts):
         if name == "Schwarzschild_isotropic":
-            # isotropic radius 0.05 M .. 50 M, log-uniform, any direction
-            lr = draw(st.floats(math.log10(0.05), math.log10(50.0),
-                                allow_nan=False))
+            # isotropic radius, log-uniform, any direction; the horizon
+            # r = M/2 (alpha = 0: degenerate 4-metric, a coordinate
+            # singularity of this slicing) is excluded by construction:
+            # 0.05M..0.45M inside, 0.55M..50M outside (|alpha| >= 0.047)
+            if draw(st.booleans()):
+                lr = draw(st.floats(math.log10(0.55), math.log10(50.0),
+                                    allow_nan=False))
+            else:
+                lr = draw(st.floats(math.log10(0.05), math.log10(0.45),
+                                    allow_nan=False))
             r = par * 10 ** lr
             th = draw(st.floats(0.0, math.pi, allow_nan=False))
             ph = draw(st.floats(0.0, 2 * math.pi, allow_nan=False))
@@ -1001,6 +1009,6 @@ def subchecks(tier):
         subs.append(Sub(name, module_case(name), make_test(name), n,
                         generic=[GENERIC[name]], shards=2 if q else 8))
     subs.append(Sub("ICPertFLRW", icpert_case(), test_icpert,
-                    48 if q else 2400, generic=GENERIC_IC,
+                    48 if q else 1600, generic=GENERIC_IC,
                     shards=8 if q else 16, shrink_quick=False))
     return subs
